@@ -46,7 +46,9 @@ prop("C01", [
     # (allocate_address/C10: the row written names the requesting client with the reply's window; C13: nothing else changes)
     # ... "and a server restart": what was recorded is what the restarted server finds (durability of every recorded lease)
     dict(POOL_B, checks=["sql_in_use", "select_new_address", "allocate_address/C01", "allocate_address/C09", "allocate_address/C10", "allocate_address/C13",
-                         "reopen/rows-survive-close-and-reopen", "reopen/every-recorded-lease-is-durable"]),
+                         "reopen/rows-survive-close-and-reopen", "reopen/every-recorded-lease-is-durable",
+                         # whose lease it is: the record behind a reply names the client as identified on the wire (option 61 of any length, else chaddr)
+                         "handlers/reply-backed-by-record"]),
 ], explanation="allocate_address never grants an address on which another client has an unexpired row; lemma over that contract; SQL contracts bounded on real SQLite",
     assumptions=["pool mutex: handlers verified as a single task (true interleaving not modelled)",
                  "wall clock monotone and below 0xF0000000 (Pool::verif_now stub)",
